@@ -43,25 +43,19 @@ def r1_pos_check_first(ctx, res):
             res.find(key, f.module.loc(f.node), f'similarity.{m} does not start with _check_if_pos_compatible(synset1.pos, synset2.pos) '
                                                 f'(first statement: `{first[:60]}`): synsets of incompatible parts of speech are scored '
                                                 f'instead of raising wn.Error')
-    h = ctx.repo.func('similarity', '_check_if_pos_compatible')
-    src = Frag(h.node, fixed=('pos1', 'pos2', '_pos1', '_pos2'))
-    key = 'pos-check-helper'
-    res.inst(key, h.module.loc(h.node), 'folds s into a for both arguments, raises wn.Error')
-    ok = '_pos1 = ADJ if pos1 == ADJ_SAT else pos1' in src and '_pos2 = ADJ if pos2 == ADJ_SAT else pos2' in src \
-        and 'if _pos1 != _pos2' in src and any(isinstance(n, ast.Raise) and 'wn.Error' in norm(n) for n in walk_no_nested(h.node))
-    if not ok:
-        res.find(key, h.module.loc(h.node), '_check_if_pos_compatible no longer folds ADJ_SAT into ADJ for both arguments and raises wn.Error '
-                                            'when the folded values differ')
+    from ..speccheck import view, expect
+    expect(res, 'pos-check-helper', view(ctx, 'similarity', '_check_if_pos_compatible'), [
+        ('raise', "wn.Error('synsets must have the same part of speech')", ('(ADJ if pos1 == ADJ_SAT else pos1) != (ADJ if pos2 == ADJ_SAT else pos2)',)),
+    ], '_check_if_pos_compatible folds ADJ_SAT into ADJ for both arguments and raises wn.Error exactly when the folded values differ')
 
 
 def r2_error_discipline(ctx, res):
-    lcs = ctx.repo.func('similarity', '_least_common_subsumers')
-    key = 'lcs-raises-on-empty'
-    src = Frag(lcs.node)
-    res.inst(key, lcs.module.loc(lcs.node), 'raise wn.Error when there is no common hypernym')
-    ok = 'if not lcs' in src and any(isinstance(n, ast.Raise) and 'wn.Error' in norm(n) for n in walk_no_nested(lcs.node))
-    if not ok:
-        res.find(key, lcs.module.loc(lcs.node), '_least_common_subsumers no longer raises wn.Error when the synsets share no hypernym')
+    from ..speccheck import view, expect
+    lch = 'synset1.lowest_common_hypernyms(synset2, simulate_root=simulate_root)'
+    expect(res, 'lcs-raises-on-empty', view(ctx, 'similarity', '_least_common_subsumers'), [
+        ('raise', "wn.Error(f'no common hypernyms for {synset1!r} and {synset2!r}')", (f'not {lch}',)),
+        ('return', lch, (lch,)),
+    ], '_least_common_subsumers returns the lowest common hypernyms and raises wn.Error when there are none')
     for m, via in (('wup', '_least_common_subsumers'), ('res', '_most_informative_lcs'), ('jcn', '_most_informative_lcs'),
                    ('lin', '_most_informative_lcs')):
         f = ctx.repo.func('similarity', m)
@@ -112,64 +106,55 @@ def r4_no_seed_selected(ctx, res):
 _ABBR = {
     'IC1': 'information_content(synset1, ic)',
     'IC2': 'information_content(synset2, ic)',
-    'ICL': 'information_content(_most_informative_lcs(synset1, synset2, ic), ic)',
+    'ICL': 'information_content(MIL, ic)',
+    'MIL': 'max(_least_common_subsumers(synset1, synset2, False), key=lambda _1: ic[synset1.pos][_1.id])',
     'LCS0': '_least_common_subsumers(synset1, synset2, simulate_root)[0]',
     'DIST': 'len(synset1.shortest_path(synset2, simulate_root=simulate_root))',
 }
 
 
 def _x(t):
-    for k, v in _ABBR.items():
-        t = t.replace(k, v)
+    for k in ('IC1', 'IC2', 'ICL', 'MIL', 'LCS0', 'DIST'):
+        t = t.replace(k, _ABBR[k])
     return t
 
 
-# documented formulas as outcome tables (wnstatic.inline): (kind, guards, value) with every local inlined, so the table
-# is insensitive to introducing / removing / renaming locals and to the order of independent statements
+# documented formulas as effect specs (kind, text, guards): every local is inlined and simple private helpers are expanded,
+# so the table is insensitive to introducing / removing / renaming locals and helpers, to if/elif vs early returns and to the
+# order of independent statements
 FORMULAS = {
-    'path': [('return', (), '1 / (DIST + 1)'),
-             ('return', ('<wn.Error raised in: path = synset1.shortest_path(synset2, simulate_root=simulate_root)>',), "1 / (float('inf') + 1)")],
-    'wup': [('return', (), '2 * (LCS0.max_depth() + 1) / (len(synset1.shortest_path(LCS0, simulate_root=simulate_root)) + '
-                           'len(synset2.shortest_path(LCS0, simulate_root=simulate_root)) + 2 * (LCS0.max_depth() + 1))')],
-    'lch': [('raise', ('max_depth <= 0',), "wn.Error('max_depth must be greater than 0')"),
-            ('return', ('not (max_depth <= 0)',), '-math.log((DIST + 1) / (2 * max_depth))')],
-    'res': [('return', (), 'ICL')],
-    'jcn': [('return', ('IC1 == IC2 == ICL == 0',), '0'),
-            ('return', ('not (IC1 == IC2 == ICL == 0)', 'IC1 + IC2 == 2 * ICL'), "float('inf')"),
-            ('return', ('not (IC1 == IC2 == ICL == 0)', 'not (IC1 + IC2 == 2 * ICL)'), '1 / (IC1 + IC2 - 2 * ICL)')],
-    'lin': [('return', ('IC1 == 0 or IC2 == 0',), '0.0'),
-            ('return', ('not (IC1 == 0 or IC2 == 0)',), '2 * ICL / (IC1 + IC2)')],
-    '_most_informative_lcs': [('return', (), 'max(_least_common_subsumers(synset1, synset2, False), key=lambda ss: ic[synset1.pos][ss.id])')],
+    'path': [('return', '1 / (DIST + 1)'),
+             ('return', "1 / (float('inf') + 1)", ('<except wn.Error>',))],
+    'wup': [('return', '2 * (LCS0.max_depth() + 1) / (len(synset1.shortest_path(LCS0, simulate_root=simulate_root)) + '
+                       'len(synset2.shortest_path(LCS0, simulate_root=simulate_root)) + 2 * (LCS0.max_depth() + 1))')],
+    'lch': [('raise', "wn.Error('max_depth must be greater than 0')", ('max_depth <= 0',)),
+            ('return', '-math.log((DIST + 1) / (2 * max_depth))', ('max_depth > 0',))],
+    'res': [('return', 'ICL')],
+    'jcn': [('return', '0', ('IC1 == IC2 == ICL == 0',)),
+            ('return', "float('inf')", ('not IC1 == IC2 == ICL == 0', 'IC1 + IC2 == 2 * ICL')),
+            ('return', '1 / (IC1 + IC2 - 2 * ICL)', ('not IC1 == IC2 == ICL == 0', 'IC1 + IC2 != 2 * ICL'))],
+    'lin': [('return', '0.0', ('IC1 == 0 or IC2 == 0',)),
+            ('return', '2 * ICL / (IC1 + IC2)', ('IC1 != 0', 'IC2 != 0'))],
 }
 DOC = {
     'path': '1 / (shortest path length + 1), infinite distance when no path connects the synsets',
     'wup': '2k / (i + j + 2k) with k = depth(lcs) + 1',
     'lch': '-log((distance + 1) / (2 * max_depth)), wn.Error for max_depth <= 0',
-    'res': 'IC(lcs)',
+    'res': 'IC(lcs) of the most informative common subsumer',
     'jcn': '1 / (IC1 + IC2 - 2 IC(lcs)) with 0 when all are 0 and inf when the denominator is 0',
     'lin': '2 IC(lcs) / (IC1 + IC2), 0 when IC1 or IC2 is 0',
-    '_most_informative_lcs': 'the common subsumer with the greatest IC weight',
 }
 
 
 def r5_anchors(ctx, res):
-    from ..inline import outcomes, Opaque
+    from ..speccheck import view, expect
     for m, want in FORMULAS.items():
-        f = ctx.repo.func('similarity', m)
-        key = f'formula:{m}'
-        try:
-            got = {o.as_key() for o in outcomes(f.node) if o.kind != 'fall'}
-        except Opaque as exc:
-            res.inst(key, f.module.loc(f.node), 'opaque')
-            res.find(key, f.module.loc(f.node), f'similarity.{m} is no longer a loop-free formula ({exc}); documented: {DOC[m]}')
-            continue
-        exp = {(k, frozenset(_x(g) for g in gs), _x(v)) for k, gs, v in want}
-        res.inst(key, f.module.loc(f.node), f'{len(got)} outcomes')
-        if got != exp:
-            extra = sorted(f'{k} {v} when {sorted(g) or "always"}' for k, g, v in got - exp)
-            missing = sorted(f'{k} {v} when {sorted(g) or "always"}' for k, g, v in exp - got)
-            res.find(key, f.module.loc(f.node), f'similarity.{m}: outcome table differs from the documented formula ({DOC[m]}); '
-                                                f'unexpected: {extra[:2]}; missing: {missing[:2]}')
+        v = view(ctx, 'similarity', m)
+        specs = [(sp[0], _x(sp[1]), tuple(_x(g) for g in (sp[2] if len(sp) > 2 else ()))) for sp in want]
+        expect(res, f'formula:{m}', v, specs, f'documented: {DOC[m]}')
+    key = 'formula:most-informative'
+    f = ctx.repo.func('similarity', '_most_informative_lcs')
+    res.inst(key, f.module.loc(f.node), 'via res/jcn/lin (helper expanded)')
 
 
 # calls that raise the documented wn.Error; each must have been evaluated on every path that returns a value
